@@ -13,7 +13,10 @@ Hypotheses, kept apart:
 * `BoundaryFresh b q body` and `TokenBoundary b` — the **honest hypothesis about Go's random
   boundary** (60 hex digits): a collision with the payload is outside the model (trusted base);
 * one **guard forced by a deviation of the current code**: `contents ≠ some []` (a body that is
-  present but empty). Witness below. -/
+  present but empty). Witness below.
+
+(A second deviation — an unsupported outer Content-Type was let through to routing — was repaired in
+/repo; the model follows the repaired code and the case is now part of `c14_malformed_rejected`.) -/
 namespace Restli.Tunnel
 open Restli Restli.Url Restli.Mime Restli.TunnelSpec
 
@@ -143,7 +146,9 @@ theorem c14_untunnelled_untouched (K : Consts) (hK : goodB K = true) (b : Bytes)
 2. a `multipart/mixed` body (written with the boundary named in the Content-Type) without a
    form-urlencoded part — *missing query part*;
 3. … without a JSON part — *missing body part*;
-4. … with a part of any other type after any number of known parts — *unknown part type*. -/
+4. … with a part of any other type after any number of known parts — *unknown part type*;
+5. an outer Content-Type that is neither form-urlencoded nor multipart/mixed — including a missing
+   or unparsable one, for which `mime.ParseMediaType` yields the media type `""`. -/
 theorem c14_malformed_rejected (K : Consts) (hK : goodB K = true) (s : Nat) (req : Req)
     (hmeth : req.method = methodPost) (hov : req.header.get K.hdrOverride ≠ []) :
     (req.rawQuery ≠ [] → detunnelSite K s req = .respond s) ∧
@@ -154,13 +159,28 @@ theorem c14_malformed_rejected (K : Consts) (hK : goodB K = true) (s : Nat) (req
       ((∀ p ∈ ps, p.value ≠ K.ctForm) ∨ (∀ p ∈ ps, p.value ≠ K.ctJson) ∨
         (∃ pre u post, ps = pre ++ u :: post ∧ (∀ p ∈ pre, p.value = K.ctForm ∨ p.value = K.ctJson) ∧
           u.value ≠ K.ctForm ∧ u.value ≠ K.ctJson)) →
-      detunnelSite K s req = .respond s) := by
+      detunnelSite K s req = .respond s) ∧
+    (∀ (mt : Bytes) (params : List (Bytes × Bytes)), req.rawQuery = [] → req.body ≠ .nil →
+      parseMediaType (getAndDelete (req.header.del K.hdrOverride) K.hdrContentType).1 = .ok (mt, params) →
+      mt ≠ K.ctForm → mt ≠ K.ctMultipart → detunnelSite K s req = .respond s) := by
   have g := good_of_B K hK
   have hovE : (req.header.get K.hdrOverride).isEmpty = false := by simpa using hov
-  constructor
+  refine ⟨?_, ?_, ?_⟩
   · intro hq
     have hqE : req.rawQuery.isEmpty = false := by simpa using hq
     simp [detunnelSite, decodeTunnelledQuery, getAndDelete_of_get, hovE, hmeth, hqE]
+  rotate_left
+  · intro mt params hq hbody hct h1 h2
+    have h1' : (mt == K.ctForm) = false := by simpa using h1
+    have h2' : (mt == K.ctMultipart) = false := by simpa using h2
+    cases hb : req.body with
+    | nil => exact absurd hb hbody
+    | noBody =>
+      simp only [detunnelSite, decodeTunnelledQuery, getAndDelete_of_get (h := req.header), hovE, hmeth, hq, hb,
+        bne_self_eq_false, Bool.or_self, Bool.false_eq_true, if_false, List.isEmpty_nil, Bool.not_true, hct, h1', h2']
+    | bytes x =>
+      simp only [detunnelSite, decodeTunnelledQuery, getAndDelete_of_get (h := req.header), hovE, hmeth, hq, hb,
+        bne_self_eq_false, Bool.or_self, Bool.false_eq_true, if_false, List.isEmpty_nil, Bool.not_true, hct, h1', h2']
   · intro b ps params hb hq hct hbp hbody hps hcase
     have hdec := decode_multipart K g req b hb ps params hmeth hov hq hct hbp hbody hps
     have : decodeTunnelledQuery K req = .err := by
@@ -204,33 +224,6 @@ theorem c14_transparency_false : ¬ C14Full := by
       c14_constants_good_v2 ⟨by decide +kernel, by decide +kernel⟩ (by decide +kernel) (by decide +kernel)
       ⟨by decide +kernel, by decide +kernel⟩)
 
-/-- **A malformed tunnelled request that is NOT rejected.** A POST carrying the override header
-whose outer Content-Type is neither form-urlencoded nor multipart/mixed (or is missing, or does not
-parse) is let through to routing with the verb replaced by the override and `Body == nil` — the
-`default:` branch of the media-type switch returns nil, and `mime.ParseMediaType`'s error is
-ignored. (On the real server, reading the nil body then panics inside `receive`: 500 instead of 400.) -/
-theorem c14_unknown_outer_type_not_rejected (K : Consts) (s : Nat) (req : Req) (mt : Bytes) (params : List (Bytes × Bytes))
-    (hmeth : req.method = methodPost) (hov : req.header.get K.hdrOverride ≠ []) (hq : req.rawQuery = [])
-    (hbody : req.body ≠ .nil)
-    (hct : parseMediaType (getAndDelete (req.header.del K.hdrOverride) K.hdrContentType).1 = .ok (mt, params))
-    (hmt : mt ≠ K.ctForm ∧ mt ≠ K.ctMultipart) :
-    match detunnelSite K s req with
-    | .routed r => r.method = req.header.get K.hdrOverride ∧ r.body = .nil
-    | _ => False := by
-  have hovE : (req.header.get K.hdrOverride).isEmpty = false := by simpa using hov
-  have h1 : (mt == K.ctForm) = false := by simpa using hmt.1
-  have h2 : (mt == K.ctMultipart) = false := by simpa using hmt.2
-  cases hb : req.body with
-  | nil => exact absurd hb hbody
-  | noBody =>
-    simp only [detunnelSite, decodeTunnelledQuery, getAndDelete_of_get (h := req.header), hovE, hmeth, hq, hb,
-      bne_self_eq_false, Bool.or_self, Bool.false_eq_true, if_false, List.isEmpty_nil, Bool.not_true, hct, h1, h2]
-    simp
-  | bytes x =>
-    simp only [detunnelSite, decodeTunnelledQuery, getAndDelete_of_get (h := req.header), hovE, hmeth, hq, hb,
-      bne_self_eq_false, Bool.or_self, Bool.false_eq_true, if_false, List.isEmpty_nil, Bool.not_true, hct, h1, h2]
-    simp
-
 /-! ## Non-vacuity -/
 
 def sampleQuery : Bytes := strB "q=find&x=%0D%0A--BOUNDARY--&ids=List(1,2)"
@@ -253,12 +246,17 @@ example : detunnelSite constsV2 Gen.detunnelErrorStatus
       body := .bytes (writeParts (strB "B") [⟨strB "Content-Type", strB "application/json", strB "{}"⟩]),
       requestURI := strB "/coll/1" } = .respond 400 := by
   decide +kernel
-/-- … and the one that slips through -/
-example : (match detunnelSite constsV2 400
+/-- … and an unsupported outer Content-Type (rejected since the repair of `DecodeTunnelledQuery`) -/
+example : detunnelSite constsV2 Gen.detunnelErrorStatus
     { method := methodPost, path := strB "/coll/1", forceQuery := false, rawQuery := [],
       header := [(strB "X-Http-Method-Override", [strB "GET"]), (strB "Content-Type", [strB "text/plain"])],
-      body := .bytes (strB "a=b"), requestURI := strB "/coll/1" } with
-    | .routed r => (r.method, r.body) | _ => ([], .noBody)) = (strB "GET", .nil) := by
+      body := .bytes (strB "a=b"), requestURI := strB "/coll/1" } = .respond 400 := by
+  decide +kernel
+/-- … and a missing one -/
+example : detunnelSite constsV2 Gen.detunnelErrorStatus
+    { method := methodPost, path := strB "/coll/1", forceQuery := false, rawQuery := [],
+      header := [(strB "X-Http-Method-Override", [strB "GET"])],
+      body := .bytes (strB "a=b"), requestURI := strB "/coll/1" } = .respond 400 := by
   decide +kernel
 
 end Restli.Tunnel
